@@ -179,7 +179,27 @@ def parseSLabel (toks : List String) : Option Retry.SLabel :=
   | ["finish", c, r] => some (.finish c.toNat! (r == "1"))
   | _ => none
 
+/-- after an observation mismatch: adopt the observed value where the field can be set directly, so that the rest of
+    the real history can still be followed (degraded mode: everything after the first divergence is evaluated on a
+    resynchronised state and is reported as such) -/
+def resync (w : World) (toks : List String) : World :=
+  match toks with
+  | ["oEvS", e, _, sg, _] => w.modEv e.toNat! fun E => { E with signal := sg == "1", processed := E.processed || sg == "1" }
+  | ["oEv", e, _, sg, par, path, _] =>
+    w.modEv e.toNat! fun E => { E with signal := sg == "1", processed := E.processed || sg == "1", parent := optNat par, path := natList path }
+  | ["oHist", b, h] => w.modBus b.toNat! fun B => { B with hist := natList h }
+  | ["oQueue", b, q] => w.modBus b.toNat! fun B => { B with queue := natList q }
+  | ["oUnf", b, n] => w.modBus b.toNat! fun B => { B with unfinished := n.toNat! }
+  | ["oIdle", b, v] => w.modBus b.toNat! fun B => { B with idle := v == "1" }
+  | ["oLock", v] => if v == "1" then w.setLock none else w
+  | ["oTodo", p, ks] =>
+    (match w.act (parseProc p) with
+     | some A => w.setAct (parseProc p) (some { A with todo := natList ks })
+     | none => w)
+  | _ => w
+
 structure St where
+  diverged : Bool := false
   sems : List (String × Retry.Sem) := []
   w : World := {}
   m : Mon := {}
@@ -199,7 +219,7 @@ def printVios (sc : String) (line : Nat) (vs : List Vio) : IO Unit :=
     IO.println s!"VIO {sc} {line} {v.prop} {v.clause} sigs={if v.sigs.isEmpty then "-" else ",".intercalate v.sigs.eraseDups} :: {v.detail}"
 
 def endScenario (s : St) : IO Unit :=
-  if s.active then IO.println s!"END {s.sc} labels={s.labels} status={if s.rejected then "rejected" else "ok"} rest={b01 s.rested}"
+  if s.active then IO.println s!"END {s.sc} labels={s.labels} status={if s.rejected || s.diverged then "rejected" else "ok"} rest={b01 s.rested}"
   else pure ()
 
 /-- apply one label (after any silent labels it needs) -/
@@ -221,11 +241,15 @@ def doLabel (s : St) (l : Label) (raw : String) : IO St := do
   if guard w l then
     let w' := apply w l
     let (m', vs) := s.m.step w l w'
-    printVios s.sc s.line vs
+    printVios (if s.diverged then s.sc ++ "~" else s.sc) s.line vs
     return { s with w := w', m := m', labels := s.labels + 1, cov := bump s.cov (labelKind l) }
   else
     IO.println s!"REJ {s.sc} {s.line} {(checks w l).why} || {raw}"
-    return { s with rejected := true }
+    -- degraded mode: follow the real history anyway (the effect of the label is applied without its guard)
+    let w' := apply w l
+    let (m', vs) := s.m.step w l w'
+    printVios (s.sc ++ "~") s.line vs
+    return { s with w := w', m := m', diverged := true, labels := s.labels + 1 }
 
 partial def loop (h : IO.FS.Stream) (s : St) : IO Unit := do
   let line ← h.getLine
@@ -248,11 +272,12 @@ partial def loop (h : IO.FS.Stream) (s : St) : IO Unit := do
       loop h { s with w := { w0 with cfg := cfg } }
     | ["rest"] =>
       if isRest s.w then
-        printVios s.sc s.line (s.m.rest s.w)
+        printVios (if s.diverged then s.sc ++ "~" else s.sc) s.line (s.m.rest s.w)
         loop h { s with rested := true }
       else
         IO.println s!"REJ {s.sc} {s.line} rest: the real system is quiescent but the model still has work in hand ({restWhy s.w}) || {raw}"
-        loop h { s with rejected := true }
+        printVios (s.sc ++ "~") s.line (s.m.rest s.w)
+        loop h { s with diverged := true, rested := true }
     | "T" :: "retry" :: _ | "T" :: "semkey" :: _ =>
       match retryLine toks with
       | some out => IO.println out; loop h s
@@ -285,6 +310,11 @@ partial def loop (h : IO.FS.Stream) (s : St) : IO Unit := do
                           cov := bump s.cov s!"sem.{rest.head!}" }
         else
           IO.println s!"REJ {s.sc} {s.line} sem: the wrapper's bookkeeping cannot do this here || {raw}"
+          match l with
+          | .acquired c =>
+            if sem.value == 0 && sem.phase c == .waiting then
+              printVios s.sc s.line [⟨"C20", "limitExceeded", [], s!"semaphore {key}: caller {c} acquired a slot while all {sem.limit} slots were held"⟩]
+          | _ => pure ()
           loop h { s with rejected := true }
       | _, _ => IO.println s!"REJ {s.sc} {s.line} unparsable line || {raw}"; loop h { s with rejected := true }
     | "note" :: _ => loop h s
@@ -301,22 +331,22 @@ partial def loop (h : IO.FS.Stream) (s : St) : IO Unit := do
         loop h { s with rejected := true }
     | ["oStopTook", x, t] =>
       if t.toNat! > s.w.cfg.stopGrace then
-        printVios s.sc s.line [⟨"C16", "stopSlow", [], s!"stop() called by task {x} took {t} ticks"⟩]
+        printVios (if s.diverged then s.sc ++ "~" else s.sc) s.line [⟨"C16", "stopSlow", [], s!"stop() called by task {x} took {t} ticks"⟩]
       loop h s
     | ["oWalUnfaithful", b, e, why] =>
-      printVios s.sc s.line [⟨"C17", "unfaithfulLine", [], s!"bus {b} event {e}: WAL line does not validate back to the event ({why})"⟩]
+      printVios (if s.diverged then s.sc ++ "~" else s.sc) s.line [⟨"C17", "unfaithfulLine", [], s!"bus {b} event {e}: WAL line does not validate back to the event ({why})"⟩]
       loop h s
     | "oIdentity" :: what =>
-      printVios s.sc s.line [⟨"C03", "identity", [], " ".intercalate what⟩]
+      printVios (if s.diverged then s.sc ++ "~" else s.sc) s.line [⟨"C03", "identity", [], " ".intercalate what⟩]
       loop h s
     | ["xAwaitRaise", e, why] =>
-      printVios s.sc s.line [⟨"C03", "awaitRaised", [], s!"awaiting event {e} from ordinary code raised {why}"⟩]
+      printVios (if s.diverged then s.sc ++ "~" else s.sc) s.line [⟨"C03", "awaitRaised", [], s!"awaiting event {e} from ordinary code raised {why}"⟩]
       loop h s
     | ["xAwaitHang", e] =>
-      printVios s.sc s.line [{ prop := "C03", clause := "hang", sigs := hangSigs s.w s.m e.toNat!, detail := s!"external await of event {e} never returns" }]
+      printVios (if s.diverged then s.sc ++ "~" else s.sc) s.line [{ prop := "C03", clause := "hang", sigs := hangSigs s.w s.m e.toNat!, detail := s!"external await of event {e} never returns" }]
       loop h s
     | ["waitIdleHang", b] =>
-      printVios s.sc s.line [{ prop := "C15", clause := "hang", sigs := busHangSigs s.w s.m b.toNat!, detail := s!"wait_until_idle of bus {b} never returns" }]
+      printVios (if s.diverged then s.sc ++ "~" else s.sc) s.line [{ prop := "C15", clause := "hang", sigs := busHangSigs s.w s.m b.toNat!, detail := s!"wait_until_idle of bus {b} never returns" }]
       loop h s
     | _ =>
       match parseLabel toks with
@@ -333,9 +363,9 @@ partial def loop (h : IO.FS.Stream) (s : St) : IO Unit := do
               let E := s.w.ev I.ev
               let sg : List String := if E.path.getLast? != some I.bus && E.path.contains I.bus then ["F9"] else []
               let vio : Vio := ⟨"C09", "eventBus", sg, s!"instance {i} on bus {I.bus} read event_bus = {got}"⟩
-              printVios s.sc s.line [vio]
+              printVios (if s.diverged then s.sc ++ "~" else s.sc) s.line [vio]
           | _ => pure ()
-          loop h (if diffs.isEmpty then s else { s with rejected := true })
+          loop h (if diffs.isEmpty then s else { s with diverged := true, w := resync s.w toks })
         | none =>
           IO.println s!"REJ {s.sc} {s.line} unparsable line || {raw}"
           loop h { s with rejected := true }
